@@ -38,7 +38,8 @@ Domain (checked by the driver, stated by `ASSUMPTIONS` of harness/props/c12.py):
 * no two watcher names of one file are equal up to letter case (`Arbiter.get_watcher` looks names
   up in lower case; with such a pair it returns the wrong watcher, in an order that depends on the
   hash seed) — then `get_watcher(n)` is the watcher called `n`;
-* `singleton`, `on_demand`, hooks and streams are off; `max_age` does not expire during a reload.
+* `singleton`, `on_demand` and hooks are off; `max_age` does not expire during a reload; stream options
+  (`stdout_stream.*` / `stderr_stream.*` lines) are part of the comparable dict like any other key.
 -/
 namespace Circus.Reload
 open Circus.Config (Str Dict dget dset lowerS strip strLt isDigit)
